@@ -1,6 +1,6 @@
 #!/bin/sh
 # usage: sweep.sh "<ids>" "<seeds>" [tier]   -- runs checks, prints one line per run
-cd /verif
+cd "$(dirname "$0")"
 for p in $1; do for s in $2; do
   out=$(./check $p --seed $s --tier ${3:-quick} 2>&1); rc=$?
   echo "$p seed=$s tier=${3:-quick} rc=$rc $(echo "$out" | grep -c '^VIOLATION') viol; $(echo "$out" | grep '^RESULT\|^BROKEN\|^INCONCLUSIVE\|BUILD-FAILED' | head -2 | tr '\n' ' ')"
